@@ -98,6 +98,12 @@ def cases(tier, seed):
             for local in (16384, 0):
                 yield dict(state='Sta6' + role[0], base='ac' if role == 'requestor' else 'rq',
                            op=['unusable-max', val, local], ending='fin', seed=seed * 31 + val)
+    # several PDUs in ONE segment and the connection reset right behind them: the bytes are
+    # readable, but the first write the provider attempts fails
+    for st in sorted(STATES):
+        for j in range(3 if tier == 'quick' else 40):
+            yield dict(state=st, base=BASES_FOR[st][j % len(BASES_FOR[st])], op=['two'],
+                       ending='rst', rst_now=True, seed=seed * 100109 + j)
     n = 600 if tier == 'quick' else 40000
     states = sorted(STATES)
     for i in range(n):
@@ -323,7 +329,7 @@ def run_case(case):
             if not drv.model.sock_open:
                 return {'violations': [], 'stats': {}, 'skipped': 'expired'}
         # deliver under a seeded segmentation
-        k = rnd.choice([0, 0, 1, 2, 5])
+        k = rnd.choice([0, 0, 1, 2, 5]) if not case.get('rst_now') else 0
         cuts = sorted(rnd.sample(range(1, len(stream)), min(k, len(stream) - 1))) \
             if len(stream) > 1 else []
         prev = 0
@@ -341,6 +347,11 @@ def run_case(case):
         if fin_now:
             rig.peer_fin()
             drv.history.append('~fin')
+        rst_now = bool(case.get('rst_now')) and not rig.sock_gone()
+        if rst_now:
+            rig.peer_rst_behind()
+            drv.history.append('~rst-behind')
+            fin_now = True          # (no reaction oracle: the connection is gone while it reacts)
         settled = rig.settle()
         rig.wire_take()
         wire = rig.wire_bytes[wire0:]
@@ -386,7 +397,7 @@ def run_case(case):
         if not gone:
             if case['ending'] == 'fin':
                 rig.peer_fin()
-            elif case['ending'] == 'rst':
+            elif case['ending'] == 'rst' and not rst_now:
                 rig.peer_rst()
         rig.settle()
         rig.advance(c05.ARTIM + 1.0)
